@@ -174,3 +174,16 @@ Example C14_after_filters_example :
   forallb fstep_ok path = true /\ forallb (fun_known cfg) [[105; 100]%N] = true /\
   funs_all cfg ffun [[105; 100]%N] (nav_allf (fun _ => None) (fun _ _ => false) doc path ([], doc)) = [RVal (VNum (num_of_Z 1)); RVal (VNum (num_of_Z 3))].
 Proof. cbv zeta. do 3 (split; [vm_compute; reflexivity|]). vm_compute. reflexivity. Qed.
+
+(* … and the call log of such a retrieval is exactly: for each value the steps and filters reach, in that order, f on it, then
+   g on what f returned, until one fails — the filters themselves call no user function (FiltFun.v: fchain_fun_node_fcf) *)
+Theorem C14_calls_after_filters_from_text : forall cfg parse_float regex_ok ffun afun regex_match,
+  (forall f v w, small v -> ffun f v = Some w -> small w) ->
+  (forall f l w, Forall small l -> afun f l = Some w -> small w) ->
+  forall x r f fs doc st, forallb fstep_ok (x :: r) = true -> forallb (fstep_okp parse_float regex_ok) (x :: r) = true ->
+  forallb fname_ok (f :: fs) = true -> forallb (fun_known cfg) (f :: fs) = true -> small doc -> ok st ->
+  exists t, parse_with cfg parse_float regex_ok jsonpath_grammar (fchain_fun_path (x :: r) (f :: fs)) = ParseOk t /\
+            calls (snd (eval_run ffun afun regex_match t doc st)) =
+            calls st ++ calls_all ffun (f :: fs) (nav_allf parse_float regex_match doc (x :: r) ([], doc)).
+Proof. exact fchain_fun_calls. Qed.
+Print Assumptions C14_calls_after_filters_from_text.
